@@ -1,5 +1,5 @@
 """Which functions, lemmas and bounded stand-ins decide which property (DESIGN.md sections 0 and 5)."""
-from . import abnf, core, recv, app, url, http, net, extra
+from . import abnf, core, recv, app, url, http, net, extra, jar
 from harness import appsim, native_c10, native_c11, native_c18, native_c19, native_c20
 
 GLOBAL_TRUSTED = [
@@ -14,7 +14,7 @@ LEMMAS = {}
 NEVER_RETURNS = {"websocket._socket:recv/none", "websocket._socket:send/bytes-none", "websocket._socket:send/str-none",
                  "websocket._dispatcher:DispatcherBase.send/none", "websocket._dispatcher:WrappedDispatcher.send/none",
                  "websocket._http:connect/proxy-socks,resolve"}
-MODULES = [abnf, recv, core, url, app, http, net, extra]
+MODULES = [abnf, recv, core, url, app, http, net, extra, jar]
 COST = {}
 
 
@@ -33,6 +33,7 @@ HK = "websocket._http:"
 U_ = "websocket._url:"
 PA = "websocket._app:"
 D_ = "websocket._dispatcher:"
+JK = "websocket._cookiejar:"
 RFN = "WebSocketApp.run_forever.<locals>."
 T_CB = "assumed contract of user callbacks: may raise any Exception subclass / KeyboardInterrupt / SystemExit and may call app.close()"
 T_SEL = "assumed contract of selectors: select() returns a possibly empty ready list"
@@ -204,15 +205,23 @@ PROPS = {
         assumptions=["non-canonical CIDR blocks (host bits set) are left unspecified", "the CONNECT request is accepted by the transport in one write"],
         not_decided=[]),
     "C20": dict(
-        functions=[HSK + "_get_handshake_headers", HSK + "handshake", HK + "read_headers"], lemmas=[], bounded=[native_c20.bounded],
-        level="other",
-        explanation="Deductively proved (counted under obligations/discharged): the Cookie line of the request is exactly the jar's cookie string for the "
-                    "target host followed by the caller's cookie; each handshake response feeds its Set-Cookie header to the process-wide jar exactly once. "
-                    "The jar itself (SimpleCookieJar.add / get: domain keys, label-boundary matching, latest value winning) depends on "
-                    "http.cookies.SimpleCookie and is covered by a BOUNDED exhaustive enumeration over small alphabets - the quantifier the property itself "
-                    "names - against a reference model written from the statement; it is not counted as proved.",
-        trusted_base=["http.cookies.SimpleCookie parsing (not modelled)"], assumptions=[],
-        not_decided=["SimpleCookieJar.add / get for arbitrary strings (bounded enumeration only)"]),
+        functions=[HSK + "_get_handshake_headers", HSK + "handshake", HK + "read_headers", JK + "SimpleCookieJar.add", JK + "SimpleCookieJar.get"],
+        lemmas=[], bounded=[native_c20.bounded],
+        explanation="Proved: add() keeps a response's cookies only when it names a Domain, under the key '.'+domain lower-cased (all of them, the new "
+                    "value replacing a same-named older one, other entries untouched); get() selects exactly the stored domains that cover the "
+                    "lower-cased host on a label boundary and renders their cookies name-sorted as 'name=value' joined by '; '; the Cookie line of the "
+                    "request is the jar's answer followed by the caller's cookie; each response's Set-Cookie reaches the jar once. Domains, names, "
+                    "values and hosts are arbitrary strings; the NUMBER of entries is fixed per contract case (a jar of 0-2 domains, responses of 1-2 "
+                    "cookies) - every history is a sequence of such operations, and the representation invariant (keys dotted, lower-case, distinct) "
+                    "that links them is part of the contracts. http.cookies.SimpleCookie is an assumed contract; the BOUNDED enumeration runs the "
+                    "real SimpleCookie against a reference model as a cross-check of that assumption and is not counted as proved.",
+        trusted_base=["assumed contract of http.cookies.SimpleCookie / Morsel (ordered map name -> morsel with value and Domain attribute; update() as dict.update)",
+                      "A-LOWER: str.lower() is idempotent, keeps a leading '.', maps only '' to '' (checked natively over all code points)",
+                      "z3 string theory incl. its code-point order (Python compares str by code point)"],
+        assumptions=["contract cases fix the number of entries: jar of 0-2 domains with 1-2 cookies each, responses of 1-2 cookies (one Domain per response, as "
+                     "the property's quantifier says); cookie names are non-empty tokens without '=', ';' or space"],
+        not_decided=["parsing of Set-Cookie text by http.cookies.SimpleCookie (assumed contract; bounded cross-check)",
+                     "jars / responses with more entries than the contract cases (the per-entry logic is the same loop body; not proved by induction)"]),
     "C12": dict(
         functions=[K + "WebSocket.send_frame", K + "WebSocket._send", SK + "send", K + "WebSocket.recv", A + "frame_buffer.recv_frame",
                    K + "WebSocket.recv_data_frame", K + "WebSocket.__init__", D_ + "DispatcherBase.send", D_ + "WrappedDispatcher.send"],
